@@ -236,7 +236,30 @@ def run_case(case: dict):
             return viol("protected-resource-delivered",
                         f"request {case['path']!r} with cert {presented} delivered {L}; first covering rule refuses ({ref}); rules={rules}",
                         **info)
-    ref_t = reference(rules, case["target"], presented)
+    # which resource does the spelling denote? (reference resolver: query cut off, escapes decoded once, dot
+    # segments removed, slashes collapsed) - hostile tails can make it differ from the generator's target
+    from urllib.parse import unquote as _unq
+
+    segs: list[str] = []
+    for sg in _unq(case["path"].split("?", 1)[0]).split("/"):
+        if sg in ("", "."):
+            continue
+        if sg == "..":
+            if segs:
+                segs.pop()
+            continue
+        segs.append(sg)
+    rel = "/".join(segs)
+    if rel in FILES:
+        denoted = "/" + rel
+    elif rel in DIRS:
+        denoted = dir_resource(rel)
+    else:
+        denoted = None
+    info["denoted"] = denoted
+    if denoted is None:
+        return ok(**info)
+    ref_t = reference(rules, denoted, presented)
     info["ref"] = ref_t
     if ref_t == "grey":
         return grey("prefix-not-on-segment-boundary", **info)
